@@ -19,6 +19,16 @@ CHECKS = {
          "For every script (all sequences up to length 2 quick / 3 thorough over 14 debugger commands plus curated breakpoint-wait-step scripts) all interleavings at Mutex/Condvar granularity up to the deviation bound: final state equals the undebugged run, stop notifications = stops of the cycle thread (each with a location), every resume issued at a stop unblocks the thread, the cycle always terminates once breakpoints are cleared and Continue is issued, step-over/out never stop deeper, step-in stops at a direct successor statement (globally or within its task).",
          "Sequentially consistent interleavings, no spurious wake-ups, one fixed program shape (nested functions, FOR loop, FB, task + background program), two cycles; scripts contain no writes.",
          "DESIGN.md §2.3, §5 C17"),
+ "C07": ("exploration",
+         "bounded-exhaustive enumeration of binding sets (areas %I/%Q/%M x sizes X/B/W/D/L x byte offsets, all single bindings and all overlapping/adjacent pairs, 17 elementary types, four binding sites, 1-2 drivers, fault/no fault), each executed for 3 cycles on the real runtime with an instrumented IoDriver, against an independent little-endian image model",
+         "Every case of the enumerated families: exactly one read_inputs before and one write_outputs after the programs per cycle and driver, all reads of an input-bound variable see the latched value, published bytes encode the final values, bits outside the addressed spans unchanged in all three images, a faulted cycle publishes no program-computed outputs.",
+         "Small scope (18-byte images, offsets {0,1,2,3,7}); type tags are C03's business; exchange faults are counted, not judged; arrays/structs at an address are left out.",
+         "DESIGN.md §5 C07"),
+ "C13": ("model_checking",
+         "explicit exploration of all edit/query histories up to a depth on the real trust_hir::Database (state = history, no merging because salsa memo tables are not observable), differential oracle against brand-new databases loaded in ascending and descending FileId order",
+         "All histories of the enumerated families (set/remove over 3-4 files x 7 cross-referencing text variants, memoisation patterns none/each single query/all between edits, depth 3 quick / 4 thorough): every answer of diagnostics, analyze, file_symbols, type_of, expr_id_at_offset equals a fresh database's on a canonical rendering without raw ids; repeated queries agree; no panic.",
+         "The product of memoisation patterns is restricted to named prefix-closed families (see evidence stages); texts without VAR_GLOBAL/CONFIGURATION; 5 files not covered.",
+         "DESIGN.md §5 C13"),
 }
 
 NOT_APPLICABLE = {
